@@ -44,7 +44,7 @@ def resolution_classes(ctx):
 
 # clauses that report a construct they found (a write, a computed value), not a pattern they
 # failed to find: the idiom guard of sa/idioms.py does not apply to them
-IDIOM_GUARD_EXEMPT = {"prefix-offsets", "value-fields", "eq-hash"}
+IDIOM_GUARD_EXEMPT = {"prefix-offsets", "value-fields", "eq-hash", "round-trip"}
 
 
 def check(ctx, rep, tier):
@@ -58,6 +58,9 @@ def check(ctx, rep, tier):
                  "passes to the constructor, position by position; each printed width is "
                  "accepted by the parser's sub-pattern; the absent marker is not a field value; "
                  "the interval separator cannot occur inside a printed end")
+    rep.describe("round-trip", "Time.__str__ and Time.from_str, constant-propagated over a grid of field values "
+                 "(present / absent combinations and every value of each field); the parser's pattern is "
+                 "matched by the analysis's own matcher: from_str(str(t)) rebuilds the fields of t")
     rep.describe("prefix-offsets", "the slice bounds of parse_nb_string equal the length of "
                  "'<Class>[]{' and of the closing brace computed from nb_str's literal")
     names, pf, cm = resolution_classes(ctx)
@@ -71,6 +74,19 @@ def check(ctx, rep, tier):
     _duration_print_parse(ctx, rep)
     _offsets(ctx, rep, names, pf, cm)
     rep.assume("not decided: injectivity outside the field ranges of C02 (year >= 10000, negatives)")
+
+
+def _attr_list(ip, st, ref, node):
+    """the equality / hash attribute list of an instance: set in the constructor or on the class"""
+    al = st.heap[ref.oid].attrs.get("_attrs")
+    if al is not None:
+        return al
+    try:
+        outs = ip.getattr_(st, ref, "_attrs", node)
+    except Exception:
+        return None
+    vals = [v for _s, v in outs if not isinstance(v, Raised)]
+    return vals[0] if len(vals) == 1 else None
 
 
 def _value_fields(ctx, rep, eng, name):
@@ -109,7 +125,7 @@ def _value_fields(ctx, rep, eng, name):
         if isinstance(ref, Raised):
             continue      # argument validation: only the constructing paths matter here
         obj = s.heap[ref.oid]
-        al = obj.attrs.get("_attrs")
+        al = _attr_list(ip, s, ref, cls)
         if not isinstance(al, TupleV) or not all(isinstance(x, StrV) and x.is_const() for x in al.items):
             rep.undecided("value-fields", c, tm.where(cls), "attribute list is not a constant list")
             continue
@@ -204,7 +220,7 @@ def _eq_semantics(ctx, rep, tm, base, eq):
                 und = "constructor not interpretable on unknown arguments"
             else:
                 oa, ob = s2.heap[a.oid], s2.heap[b.oid]
-                al = oa.attrs.get("_attrs")
+                al = _attr_list(ip, s2, a, tm.classes.get(cname))
                 if not isinstance(al, TupleV) or not all(isinstance(x, StrV) and x.is_const() for x in al.items):
                     und = "attribute list is not a constant list"
                 else:
@@ -222,9 +238,16 @@ def _eq_semantics(ctx, rep, tm, base, eq):
                             continue
                         n_true += 1
                         eqs = set()
+                        def add_eq(x, y):
+                            eqs.add(frozenset([x, y]))
+                            # equality of two tuples is equality of their elements
+                            if isinstance(x, tuple) and isinstance(y, tuple) and len(x) == 2 and len(y) == 2 \
+                                    and x[0] == y[0] == "tuple" and len(x[1]) == len(y[1]):
+                                for p_, q_ in zip(x[1], y[1]):
+                                    add_eq(p_, q_)
                         for cnd, truth in s3.conds:
                             if truth and isinstance(cnd, tuple) and len(cnd) == 4 and cnd[0] == "cmp" and cnd[1] == "Eq":
-                                eqs.add(frozenset([cnd[2], cnd[3]]))
+                                add_eq(cnd[2], cnd[3])
                         for f in attrs:
                             va, vb = oa.attrs.get(f), ob.attrs.get(f)
                             pair = frozenset([getattr(va, "sym", None), getattr(vb, "sym", None)])
@@ -265,17 +288,98 @@ def _format_fields(fmt):
     return out
 
 
+def _time_fold(ctx, tm, st, fs):
+    """Print and parse back, by constant propagation (e1.PureEval) of Time.__str__ and
+    Time.from_str over a grid of field values; the parser's regex is matched by the analysis's own
+    matcher (e2.preferred_match).  -> (number of round trips evaluated, first failure or None);
+    raises Undecided when the two functions cannot be folded."""
+    import itertools
+    env = ctx.model.env("ctparse.types")
+    tcls = env.get("Time")
+    table = ctx.model.const("ctparse.types", "pod_hours")
+    pods = sorted(table)[:2] if isinstance(table, dict) and table else ["morning"]
+    grid = {"year": [None, 1, 1970, 2024, 9999], "month": [None, 1, 12], "day": [None, 1, 31],
+            "hour": [None, 0, 9, 23], "minute": [None, 0, 59], "DOW": [None, 0, 6], "POD": [None] + pods[:1]}
+    init = tm.funcs.get("Time.__init__")
+    names = [a.arg for a in init.args.args][1:] if init is not None else list(grid)
+    if sorted(names) != sorted(grid):
+        raise Undecided("Time fields are {}".format(names))
+    parsed_cache = {}
+
+    def hook(obj, attr, args, kwargs):
+        if isinstance(obj, e1.Opaque) and obj.kind == "call" and attr in ("match", "fullmatch") and args \
+                and isinstance(args[0], str):
+            inf = obj.info
+            if inf[1] == "compile" and inf[2] and isinstance(inf[2][0], str):
+                pat = inf[2][0]
+                if pat not in parsed_cache:
+                    parsed_cache[pat] = e2.parse(pat, version1=False)
+                P = parsed_cache[pat]
+                r = e2.preferred_match(P, args[0], 0)
+                if r is None or (attr == "fullmatch" and r[0] != len(args[0])):
+                    return None
+                return e1.FoldMatch(args[0], r[0], {k: v for k, v in r[1].items() if isinstance(k, int)},
+                                    max(P.by_idx) if P.by_idx else 0, dict(P.groups))
+        if isinstance(obj, e1.Opaque) and attr in ("debug", "info", "warning"):
+            return None
+        return NotImplemented
+    n = 0
+    bad = None
+    combos = list(itertools.product(*[grid[k] for k in names]))
+    # plus every value of each field alone (full ranges)
+    full = {"year": range(1, 10000, 7), "month": range(1, 13), "day": range(1, 32), "hour": range(24),
+            "minute": range(60), "DOW": range(7)}
+    for k, rng in full.items():
+        for v in rng:
+            combos.append(tuple(v if nm == k else (2024 if nm == "year" and k != "year" else None) for nm in names))
+    for combo in combos:
+        vals = dict(zip(names, combo))
+        rec = e1.Record(**vals)
+        text = _fold_call(ctx, tm, st, [rec], hook)
+        if not isinstance(text, str):
+            raise Undecided("Time.__str__ does not fold to a string")
+        try:
+            back = _fold_call(ctx, tm, fs, [tcls, text], hook)
+        except e1._Raised as e:
+            bad = bad or "Time({}) prints as '{}' which from_str rejects ({})".format(
+                ", ".join("{}={}".format(k, v) for k, v in vals.items() if v is not None), text, e.what[:30])
+            n += 1
+            continue
+        got = None
+        if isinstance(back, e1.Opaque) and back.kind == "instance":
+            _c, iargs, ikw, _n = back.info
+            got = dict(zip(names, iargs))
+            got.update(ikw)
+            got = {k: got.get(k) for k in names}
+        n += 1
+        if got != vals:
+            bad = bad or "Time({}) prints as '{}' and parses back as {}".format(
+                ", ".join("{}={}".format(k, v) for k, v in vals.items() if v is not None), text,
+                {k: v for k, v in (got or {}).items() if v is not None})
+    return n, bad
+
+
 def _time_print_parse(ctx, rep):
     tm = ctx.imod("ctparse.types")
     st = tm.func("Time.__str__")
     fs = tm.func("Time.from_str")
     c = tm.rel + "::Time"
+    folded = None
+    try:
+        folded = _time_fold(ctx, tm, st, fs)
+    except (Undecided, e1.StepBudget, e1._Raised, AnalysisError):
+        folded = None
+    if folded is not None:
+        n_f, bad_f = folded
+        rep.add("round-trip", c + "::round trip (printer and parser folded over the field grid)", tm.where(fs),
+                bad_f is None, bad_f or "{} values".format(n_f))
     # printer: the returned value as a template of literals and fields (sa/checks/fmtterms.py)
     parts = ft_.returned_template(tm, st)
     af = ft_.as_format(parts) if parts is not None else None
     if af is None:
-        rep.undecided("print-parse", c + "::__str__", tm.where(st), "printer not understood: {}".format(
-            [p_ for p_ in (parts or []) if p_[0] == "?"][:2] or "no single returned value"))
+        if folded is None:
+            rep.undecided("print-parse", c + "::__str__", tm.where(st), "printer not understood: {}".format(
+                [p_ for p_ in (parts or []) if p_[0] == "?"][:2] or "no single returned value"))
         return
     outer, flds = af
     printed = []      # (field, spec, absent marker)
